@@ -2,7 +2,7 @@
 // in the tree under test ($VERIF_REPO, default /repo) and writes coq/Generated/AccessTable.v (only when the
 // content changed, so that an unchanged tree does not trigger a Coq rebuild).
 //
-//	accessgen [-repo dir] [-out file] [-report] [-dump]
+//	accessgen [-repo dir] [-out file] [-hooks dir] [-dump]
 //
 // Exit code 0 also when the discipline is violated (that verdict belongs to Coq: Properties/C10.v); the
 // violating sites are printed so that they end up in the check's log.
@@ -25,7 +25,15 @@ func main() {
 	flag.StringVar(&repo, "repo", repo, "tree under test")
 	out := flag.String("out", "", "output .v file (default: <verif>/coq/Generated/AccessTable.v next to the harness directory)")
 	dump := flag.Bool("dump", false, "print every site")
+	hooks := flag.String("hooks", "", "directory for the window-hook copy of internal/actor/context.go (C10 tree scenarios)")
 	flag.Parse()
+	if *hooks != "" {
+		n, err := gen.WriteHooked(repo, *hooks)
+		if err != nil {
+			fmt.Fprintln(os.Stderr, "accessgen: hooks:", err)
+		}
+		fmt.Printf("accessgen: %d lock-acquisition hooks in %s/context.go\n", n, *hooks)
+	}
 	t, err := gen.Generate(repo)
 	if err != nil {
 		fmt.Fprintln(os.Stderr, "accessgen:", err)
@@ -34,6 +42,9 @@ func main() {
 	if *dump {
 		for _, a := range t.Accesses {
 			fmt.Println(a.Site, a.Describe())
+		}
+		for _, ps := range t.Panics {
+			fmt.Println("panic-site", ps.ID, ps.Describe())
 		}
 	}
 	fmt.Print(t.Report())
